@@ -458,10 +458,30 @@ type c03ParkCase struct {
 	// stream options that are off by default
 	ManualFlush bool
 	MaxBuf      int
+	// AtPoint: instead of a write held in the transport, the first call that reaches this scheduling point inside the
+	// stream is held there until the release step ("" = hold a transport write as usual)
+	AtPoint string
 }
 
 func runC03Parked(c c03ParkCase) (r pbt.Result) {
 	sk := &sink{parkAt: c.ParkWrite, parked: make(chan struct{})}
+	var pts *sim.Points
+	if c.AtPoint != "" {
+		sk.parkAt = 0
+		pts = sim.NewPoints([]string{c.AtPoint})
+		pts.Limit = 1
+		pts.Install()
+		defer pts.Uninstall()
+	}
+	releasePoint := func() {
+		if pts != nil {
+			for _, a := range pts.Parked() {
+				pts.Release(a)
+			}
+			pts.Uninstall()
+		}
+	}
+	defer releasePoint()
 	if c.FailRelease {
 		sk.fail = errors.New("sink: transport closed under the write")
 	}
@@ -534,6 +554,7 @@ func runC03Parked(c c03ParkCase) (r pbt.Result) {
 		if i == c.ReleaseAt && !released {
 			released = true
 			close(sk.parked)
+			releasePoint()
 			if !observe(i, "release") {
 				return
 			}
@@ -605,6 +626,7 @@ func runC03Parked(c c03ParkCase) (r pbt.Result) {
 	if !released {
 		released = true
 		close(sk.parked)
+		releasePoint()
 	}
 	if !observe(len(c.Ops), "release") {
 		return
@@ -685,6 +707,9 @@ func runC03Parked(c c03ParkCase) (r pbt.Result) {
 	if c.ManualFlush {
 		r.Label("manual_flush")
 	}
+	if c.AtPoint != "" {
+		r.Label("call_held_at_a_scheduling_point")
+	}
 	if termAt >= 0 {
 		r.Label("terminated")
 		if parkedAtTerm {
@@ -705,6 +730,13 @@ func TestC03Parked(t *testing.T) {
 		c.FailRelease = rapid.IntRange(0, 2).Draw(t, "failrelease") == 0
 		c.ManualFlush = rapid.IntRange(0, 3).Draw(t, "manualflush") == 0
 		c.MaxBuf = rapid.SampledFrom([]int{0, 0, 1, 16}).Draw(t, "maxbuf")
+		if rapid.IntRange(0, 3).Draw(t, "atpoint") == 0 {
+			// points in front of a lock or of a flush that re-checks the state; the points that sit between a state
+			// check and the write it guards are left out: a call held there overlaps the termination, and its packet
+			// counts as written before it
+			c.AtPoint = rapid.SampledFrom([]string{"stream.MsgSend.beforeFlush", "stream.MsgSend.beforeFlush", "stream.MsgSend.beforeWriteLock", "stream.RawWrite.beforeWriteLock",
+				"stream.RawFlush.beforeWriteLock", "stream.MsgRecv.beforeReadLock", "stream.checkFinished", "stream.Close.beforeWriteLock", "stream.CloseSend.beforeWriteLock"}).Draw(t, "point")
+		}
 		return c
 	}
 	pbt.Check(t, pbt.Prop[c03ParkCase]{ID: "C03", Name: "parked", Gen: gen, Run: runC03Parked})
